@@ -38,6 +38,9 @@ type FakeServer struct {
 	done           chan struct{}
 }
 
+// MaxPayload is the max_payload the next fake server announces in INFO.
+var MaxPayload = 1048576
+
 func NewFakeServer() (*FakeServer, error) {
 	ln, err := net.Listen("tcp", "127.0.0.1:0")
 	if err != nil {
@@ -60,7 +63,7 @@ func (s *FakeServer) accept() {
 	s.mu.Lock()
 	s.conn = c
 	s.w = bufio.NewWriterSize(c, 1<<16)
-	s.w.WriteString(`INFO {"server_id":"FAKE","server_name":"fake","version":"2.6.6","proto":1,"go":"go","host":"127.0.0.1","port":4222,"headers":true,"max_payload":1048576,"client_id":1}` + "\r\n")
+	s.w.WriteString(`INFO {"server_id":"FAKE","server_name":"fake","version":"2.6.6","proto":1,"go":"go","host":"127.0.0.1","port":4222,"headers":true,"max_payload":` + strconv.Itoa(MaxPayload) + `,"client_id":1}` + "\r\n")
 	s.w.Flush()
 	s.mu.Unlock()
 	s.read(c)
